@@ -105,7 +105,8 @@ TLSBegin == IsEv("LSBegin") /\ LSBegin(Ev.pt, Ev.budget) /\ Consume
 TTrialF == IsEv("EvalF") /\ ~Ev.exc /\ Ev.site = "ls" /\ TrialF(Ev.pt, Ev.fr) /\ Consume
            /\ Note(Feas(Ev, "ls") \cup Flag("C11_TrialInBox", Ev.inbox /\ Ev.fixed))
 TTrialG == IsEv("EvalG") /\ ~Ev.exc /\ Ev.site = "ls" /\ TrialG(Ev.pt, Ev.pg) /\ Consume
-           /\ Note(Feas(Ev, "ls") \cup Flag("C11_TrialInBox", Ev.inbox /\ Ev.fixed))
+           /\ Note(Feas(Ev, "ls") \cup Flag("C11_TrialInBox", Ev.inbox /\ Ev.fixed)
+                   \cup Flag("C05_GradAtTrialPoint", Ev.pt = ls.pend))
 LSEndClauses(e) ==
      Flag("C11_Budget", e.evals <= ls.budget)
      \cup Flag("C11_Downhill", e.ret # "step" \/ gen > 0 \/ (e.fr >= 0 /\ e.fr < fx))
@@ -116,11 +117,12 @@ TLSNone == IsEv("LSEnd") /\ Ev.ret = "none" /\ (LSFailAbort \/ LSFailReset) /\ C
 TLSStep == IsEv("LSEnd") /\ Ev.ret = "step" /\ LSStep(Ev.pt, Ev.fr) /\ Consume
            /\ Note(LSEndClauses(Ev))
 TAccFEval == IsEv("EvalF") /\ ~Ev.exc /\ Ev.site = "main" /\ AccFEval(Ev.pt, Ev.fr) /\ Consume
-             /\ Note(Feas(Ev, "accept") \cup Flag("C15_NoReeval", ~(memo.pt = x /\ memo.f)))
+             /\ Note(Feas(Ev, "accept") \cup Flag("C15_NoReeval", ~(memo.pt = x /\ memo.f))
+                     \cup Flag("C03_IterateIsAcceptedTrial", Ev.near))
 TAccFHit  == ~(IsEv("EvalF") /\ Ev.site = "main") /\ AccFHit /\ Silent /\ Note({})
 TAccFSkip == ~(IsEv("EvalF") /\ Ev.site = "main") /\ AccFSkip /\ Silent /\ Note({})
 TAccGEval == IsEv("EvalG") /\ ~Ev.exc /\ Ev.site = "main" /\ AccGEval(Ev.pt, Ev.pg) /\ Consume
-             /\ Note(Feas(Ev, "accept"))
+             /\ Note(Feas(Ev, "accept") \cup Flag("C05_GradAtIterate", Ev.pt = x))
 TAccGHit  == ~(IsEv("EvalG") \/ IsEv("EvalS")) /\ AccGHit /\ Silent /\ Note({})
 TAccGSkip == ~(IsEv("EvalG") \/ IsEv("EvalS")) /\ AccGSkip /\ Silent /\ Note({})
 TUpd      == IsEv("Call") /\ ~Ev.exc /\ Ev.who = "upd" /\ CallUpd /\ Consume /\ Note({})
